@@ -98,6 +98,9 @@ def expect(op, args, minimal):
     if name in ('LSHIFT', 'RSHIFT'):
         if b < 0 or b > 63:
             return ERR       # a shift by a negative count or by the whole width and more is an invalid operand
+        if name == 'RSHIFT' and a < 0 and b <= 62:
+            # whichever way a negative number is shifted right (towards minus infinity or towards zero), the result is not positive and no larger in magnitude
+            return ('val', sorted(set([R.num_enc(a >> b), R.num_enc(-((-a) >> b))])))
         if b > 62 or a < 0:
             return ANY
         if name == 'LSHIFT':
